@@ -1,7 +1,8 @@
 GROUP = {
     # emit_traceparent (+ emit with default features); thread_local! replaced by per-"thread" slots
     "stub_sets": ["tls_traceparent"],
-    "kani_args": ["-Z", "stubbing"],
+    # assertion reach checks off (measured 2.5x faster): vacuity is guarded by kani::cover! in every harness and by the mutant twins
+    "kani_args": ["-Z", "stubbing", "--no-assertion-reach-checks"],
     "recursion_caps": [(r"value_bag::internal::cast.*CastVisitor.*::fill", 3)],
     "modules": ["util", "env", "c15_tp", "c18_sampling"],
 }
